@@ -1,11 +1,13 @@
 package props
 
 import (
+	"encoding/json"
 	"fmt"
 	"path"
 	"sort"
 	"strings"
 	"testing"
+	"time"
 	"unicode"
 
 	erpc "github.com/henrylee2cn/erpc/v6"
@@ -39,8 +41,28 @@ func c10id(c interface {
 	Peer() erpc.Peer
 }, id string, kind string, a *world.Payload) {
 	e := world.Cur()
-	simrt.Yield()
+	// a handler that takes its time before it looks at the name it was invoked under: later frames of the same
+	// connection are read meanwhile
+	c10linger(e)
 	e.Obs.RecordHandler(world.HandlerEvent{Peer: "srv", Sess: world.SessKey(c.Session()), Seq: c.Seq(), Kind: kind, Method: c.ServiceMethod(), Arg: id + "|" + a.Tag})
+}
+
+func c10linger(e *world.Env) {
+	switch e.Gen.Intn(4) {
+	case 0:
+		simrt.Yield()
+	case 1:
+		simrt.YieldN(1 + e.Gen.Intn(30))
+	default:
+		simrt.Sleep(time.Duration(1+e.Gen.Intn(2000)) * time.Microsecond)
+	}
+}
+
+// c10tag extracts the probe tag from the JSON body an unknown-handler is given.
+func c10tag(body []byte) string {
+	var p struct{ Tag string }
+	json.Unmarshal(body, &p)
+	return p.Tag
 }
 
 type CtlA struct{ erpc.CallCtx }
@@ -216,15 +238,17 @@ func runC10(t *testing.T, seed uint64, m *Mask) *Report {
 		srv := e.NewPeer("srv", erpc.PeerConfig{})
 		if unknownCall {
 			srv.SetUnknownCall(func(c erpc.UnknownCallCtx) (interface{}, *erpc.Status) {
-				simrt.Yield()
-				e.Obs.RecordHandler(world.HandlerEvent{Peer: "srv", Sess: world.SessKey(c.Session()), Seq: c.Seq(), Kind: "unknown_call", Method: c.ServiceMethod(), Arg: "unknown|"})
+				tag := c10tag(c.InputBodyBytes())
+				c10linger(e)
+				e.Obs.RecordHandler(world.HandlerEvent{Peer: "srv", Sess: world.SessKey(c.Session()), Seq: c.Seq(), Kind: "unknown_call", Method: c.ServiceMethod(), Arg: "unknown|" + tag})
 				return &world.Payload{Data: "unknown-call"}, nil
 			})
 		}
 		if unknownPush {
 			srv.SetUnknownPush(func(c erpc.UnknownPushCtx) *erpc.Status {
-				simrt.Yield()
-				e.Obs.RecordHandler(world.HandlerEvent{Peer: "srv", Sess: world.SessKey(c.Session()), Seq: c.Seq(), Kind: "unknown_push", Method: c.ServiceMethod(), Arg: "unknown|"})
+				tag := c10tag(c.InputBodyBytes())
+				c10linger(e)
+				e.Obs.RecordHandler(world.HandlerEvent{Peer: "srv", Sess: world.SessKey(c.Session()), Seq: c.Seq(), Kind: "unknown_push", Method: c.ServiceMethod(), Arg: "unknown|" + tag})
 				return nil
 			})
 		}
@@ -434,6 +458,20 @@ func runC10(t *testing.T, seed uint64, m *Mask) *Report {
 		for _, ev := range e.Obs.Handlers {
 			if strings.HasPrefix(ev.Kind, "unknown") {
 				unknownRuns[ev.Kind+"|"+ev.Method]++
+			}
+		}
+		// the name a handler (registered or unknown) is invoked under is the name that was requested
+		nameOf := map[string]string{}
+		for _, p := range probes {
+			nameOf[p.op.Tag] = p.name
+		}
+		for _, ev := range e.Obs.Handlers {
+			parts := strings.SplitN(ev.Arg, "|", 2)
+			if len(parts) != 2 || ev.Exit {
+				continue
+			}
+			if want, ok := nameOf[parts[1]]; ok && ev.Method != want {
+				e.Fail("C10/handler-invoked-under-other-name", "proto=%s mapper=%s: handler %s ran for the request named %q but its context reports the service method %q", proto, opt.Mapper, parts[0], want, ev.Method)
 			}
 		}
 		for _, p := range probes {
